@@ -26,6 +26,7 @@ struct c4_ctx {
     int depth = 1;
     int completion = 0;
     int throw_level = -1;
+    bool throw_cancel_reason = false; // the throwing level throws a user exception DERIVED from await_canceled_exception (same code)
     int bomb_level = -1; // this level co_returns arguments from which the result cannot be constructed (constructor throws 50+level)
     std::atomic<int> body_runs[8];
     std::atomic<int> body_done[8];
@@ -58,7 +59,7 @@ template <typename T> cocls::async<T> c4_body(c4_ctx &X, int level, tracked arg)
     }
     if (!local.ok() || !arg.ok()) throw vf::test_exc{-77};
     X.body_done[level].fetch_add(1, std::memory_order_relaxed);
-    if (X.throw_level == level) throw vf::test_exc{level};
+    if (X.throw_level == level) { if (X.throw_cancel_reason) throw f_cancel_reason(level); throw vf::test_exc{level}; }
     if constexpr (std::is_same_v<T, vf::tracked_thr>) { if (X.bomb_level == level) co_return vf::bomb{50 + level}; }
     if constexpr (std::is_void_v<T>) co_return; else co_return c4_value<T>(inner);
 }
@@ -95,7 +96,7 @@ template <typename T> cocls::async<void> c4_driver(c4_ctx &X, int mode, c4_resul
         try {
             if constexpr (std::is_void_v<T>) { co_await c4_body<T>(X, 0, tracked(1)); res.got.state = PS_VALUE; }
             else { T v = std::move(co_await c4_body<T>(X, 0, tracked(1))); res.got.state = PS_VALUE; res.got.val = c4_id(v); }
-        } catch (const vf::test_exc &e) { res.got.state = PS_EXC; res.got.code = e.code; }
+        } catch (const vf::test_exc &e) { res.got.state = PS_EXC; res.got.code = e.code; } catch (const f_cancel_reason &e) { res.got.state = PS_EXC; res.got.code = e.code; }
         catch (const cocls::await_canceled_exception &) { res.got.state = PS_CANCELED; }
         res.have = true;
     }
@@ -117,6 +118,7 @@ void async_program(const vf::opts &o, vf::report &R, uint64_t pn, vf::rng &r, co
     X.completion = force_completion >= 0 ? force_completion : (int)r.below(4);
     bool throws = X.completion == AC_THROW || X.completion == AC_SUSPEND_THROW;
     X.throw_level = throws ? (int)r.below((uint32_t)X.depth) : -1;
+    X.throw_cancel_reason = throws && r.chance(1, 3);
     if constexpr (std::is_same_v<T, vf::tracked_thr>) { if (!throws && r.chance(1, 2)) X.bomb_level = (int)r.below((uint32_t)X.depth); }
     bool other_thread = r.chance(1, 3);
     int premoves = r.chance(1, 3) ? 1 + (int)r.below(2) : 0;
@@ -130,7 +132,7 @@ void async_program(const vf::opts &o, vf::report &R, uint64_t pn, vf::rng &r, co
     bool inside_force = (mode == AM_START || mode == AM_FUTURE_CTOR) && r.chance(1, 3);
     if (mode == AM_FUTURE_FN && false) X.depth = 1;
     std::string desc = std::string(ftype_name<T>()) + " / " + am_name(mode) + (stopped_pool ? " [pool already stopped]" : "") + (inside_force ? " [from inside a coroutine, then force_sync()]" : "") + " / " + ac_name(X.completion) + " / depth " + std::to_string(X.depth) +
-                       (premoves ? " / object moved " + std::to_string(premoves) + "x" : "") + (throws ? " throw@" + std::to_string(X.throw_level) : "") + (X.bomb_level >= 0 ? " unconstructible-result@" + std::to_string(X.bomb_level) : "") + (suspends ? (other_thread ? " / finished by another thread" : " / finished by the same thread") : "");
+                       (premoves ? " / object moved " + std::to_string(premoves) + "x" : "") + (throws ? std::string(X.throw_cancel_reason ? " throw(derived from await_canceled_exception)@" : " throw@") + std::to_string(X.throw_level) : "") + (X.bomb_level >= 0 ? " unconstructible-result@" + std::to_string(X.bomb_level) : "") + (suspends ? (other_thread ? " / finished by another thread" : " / finished by the same thread") : "");
     vf::set_crash_ctx(R.prop.c_str(), "async_programs", o.seed, pn, desc.c_str());
     long live0 = tracked::live.load(), bad0 = tracked::bad.load();
     c4_result<T> res;
@@ -186,7 +188,7 @@ void async_program(const vf::opts &o, vf::report &R, uint64_t pn, vf::rng &r, co
             try {
                 if constexpr (std::is_void_v<T>) { MK().join(); res.got.state = PS_VALUE; }
                 else { T v = MK().join(); res.got.state = PS_VALUE; res.got.val = c4_id(v); }
-            } catch (const vf::test_exc &e) { res.got.state = PS_EXC; res.got.code = e.code; }
+            } catch (const vf::test_exc &e) { res.got.state = PS_EXC; res.got.code = e.code; } catch (const f_cancel_reason &e) { res.got.state = PS_EXC; res.got.code = e.code; }
             res.have = true;
             break;
         }
